@@ -122,7 +122,10 @@ def run_case(case):
                     else:
                         rng = np.random.Generator(np.random.PCG64(case['seed'] + 3))
                         base = rng.uniform(0.1, 5.0, size=n)
-                        logbase = np.log(base)
+                        if n >= 2 and case['np_seed'] % 3 == 0:
+                            base[int(rng.integers(0, n))] = 0.0         # a candidate excluded by its base measure
+                        with np.errstate(divide='ignore'):
+                            logbase = np.log(base)
                         order = list(range(n))
                         if case['base_order'] == 'reversed': order = order[::-1]
                         elif case['base_order'] in ('shuffled', 'superset'): order = list(rng.permutation(n))
